@@ -98,3 +98,137 @@ pub fn c10acc(req: &Value) -> Result<Value, String> {
         _ => return Err(format!("unknown identifier type {ty}")),
     })
 }
+
+
+/// push ruleset edits through the public API
+pub fn c13(kind_op: &str, req: &Value) -> Result<Value, String> {
+    use ruma_common::push::{
+        Action, ConditionalPushRuleInit, NewConditionalPushRule, NewPatternedPushRule, NewPushRule, NewSimplePushRule,
+        PatternedPushRuleInit, RuleKind, Ruleset, SimplePushRuleInit,
+    };
+    use ruma_common::{OwnedRoomId, OwnedUserId};
+    let kind = req.get("kind").and_then(|x| x.as_str()).unwrap_or("");
+    let pre = req.get("pre").and_then(|x| x.as_array()).cloned().unwrap_or_default();
+    let mut rs = Ruleset::new();
+    for r in &pre {
+        let id = r["id"].as_str().unwrap_or("").to_owned();
+        let enabled = r["enabled"].as_bool().unwrap_or(true);
+        let default = r["default"].as_bool().unwrap_or(false);
+        match kind {
+            "override" => { rs.override_.insert(ConditionalPushRuleInit { actions: vec![Action::Notify], default, enabled, rule_id: id, conditions: vec![] }.into()); }
+            "underride" => { rs.underride.insert(ConditionalPushRuleInit { actions: vec![Action::Notify], default, enabled, rule_id: id, conditions: vec![] }.into()); }
+            "content" => { rs.content.insert(PatternedPushRuleInit { actions: vec![Action::Notify], default, enabled, rule_id: id, pattern: "old".into() }.into()); }
+            // room / sender rule ids are typed identifiers: the (alphanumeric) model ids are embedded into valid ids
+            "room" => { rs.room.insert(SimplePushRuleInit { actions: vec![Action::Notify], default, enabled, rule_id: OwnedRoomId::try_from(format!("!{id}:x")).map_err(|e| e.to_string())? }.into()); }
+            "sender" => { rs.sender.insert(SimplePushRuleInit { actions: vec![Action::Notify], default, enabled, rule_id: OwnedUserId::try_from(format!("@{id}:x")).map_err(|e| e.to_string())? }.into()); }
+            _ => return Ok(json!({"r": "unsupported-kind"})),
+        }
+    }
+    let snapshot = |rs: &Ruleset| serde_json::to_value(rs).unwrap();
+    let before_json = snapshot(&rs);
+    let ids = |rs: &Ruleset| -> Vec<String> {
+        match kind {
+            "override" => rs.override_.iter().map(|r| r.rule_id.clone()).collect(),
+            "underride" => rs.underride.iter().map(|r| r.rule_id.clone()).collect(),
+            "room" => rs.room.iter().map(|r| unembed(r.rule_id.as_str())).collect(),
+            "sender" => rs.sender.iter().map(|r| unembed(r.rule_id.as_str())).collect(),
+            _ => rs.content.iter().map(|r| r.rule_id.clone()).collect(),
+        }
+    };
+    let enabled = |rs: &Ruleset| -> serde_json::Map<String, Value> {
+        let mut m = serde_json::Map::new();
+        match kind {
+            "override" => for r in rs.override_.iter() { m.insert(r.rule_id.clone(), json!(r.enabled)); },
+            "underride" => for r in rs.underride.iter() { m.insert(r.rule_id.clone(), json!(r.enabled)); },
+            "room" => for r in rs.room.iter() { m.insert(unembed(r.rule_id.as_str()), json!(r.enabled)); },
+            "sender" => for r in rs.sender.iter() { m.insert(unembed(r.rule_id.as_str()), json!(r.enabled)); },
+            _ => for r in rs.content.iter() { m.insert(r.rule_id.clone(), json!(r.enabled)); },
+        }
+        m
+    };
+    let rk = match kind { "override" => RuleKind::Override, "underride" => RuleKind::Underride, "room" => RuleKind::Room, "sender" => RuleKind::Sender, _ => RuleKind::Content };
+    // anchors / targets of room and sender rules are compared with the full id string
+    let embed = |a: &str| -> String {
+        if a.starts_with('.') { a.to_owned() } else { match kind { "room" => format!("!{a}:x"), "sender" => format!("@{a}:x"), _ => a.to_owned() } }
+    };
+    match kind_op {
+        "insert" => {
+            let new_id = req["new_id"].as_str().unwrap_or("").to_owned();
+            let after_s = req.get("after").and_then(|x| x.as_str()).map(|a| embed(a));
+            let before_s = req.get("before").and_then(|x| x.as_str()).map(|a| embed(a));
+            let (after, before) = (after_s.as_deref(), before_s.as_deref());
+            let rule = match kind {
+                "room" => NewPushRule::Room(NewSimplePushRule::new(OwnedRoomId::try_from(format!("!{new_id}:x")).map_err(|e| e.to_string())?, vec![])),
+                "sender" => NewPushRule::Sender(NewSimplePushRule::new(OwnedUserId::try_from(format!("@{new_id}:x")).map_err(|e| e.to_string())?, vec![])),
+                "override" => NewPushRule::Override(NewConditionalPushRule::new(new_id, vec![], vec![])),
+                "underride" => NewPushRule::Underride(NewConditionalPushRule::new(new_id, vec![], vec![])),
+                _ => NewPushRule::Content(NewPatternedPushRule::new(new_id, "new".into(), vec![])),
+            };
+            match rs.insert(rule, after, before) {
+                Ok(()) => Ok(json!({"r": "ok", "ids": ids(&rs), "enabled": enabled(&rs)})),
+                Err(e) => Ok(json!({"r": "err", "e": format!("{e:?}"), "unchanged": snapshot(&rs) == before_json, "ids": ids(&rs)})),
+            }
+        }
+        "remove" => match rs.remove(rk, embed(req["target"].as_str().unwrap_or(""))) {
+            Ok(()) => Ok(json!({"r": "ok", "ids": ids(&rs)})),
+            Err(e) => Ok(json!({"r": "err", "e": format!("{e:?}"), "unchanged": snapshot(&rs) == before_json})),
+        },
+        "set_enabled" => match rs.set_enabled(rk, embed(req["target"].as_str().unwrap_or("")), req["flag"].as_bool().unwrap_or(false)) {
+            Ok(()) => Ok(json!({"r": "ok", "ids": ids(&rs), "enabled": enabled(&rs)})),
+            Err(e) => Ok(json!({"r": "err", "e": format!("{e:?}"), "unchanged": snapshot(&rs) == before_json})),
+        },
+        "set_actions" => match rs.set_actions(rk, embed(req["target"].as_str().unwrap_or("")), vec![Action::Notify, Action::Notify]) {
+            Ok(()) => {
+                let after_json = snapshot(&rs);
+                let mut changed = vec![];
+                let field = match kind { "override" => "override", "underride" => "underride", "room" => "room", "sender" => "sender", _ => "content" };
+                if let (Some(a), Some(b)) = (before_json[field].as_array(), after_json[field].as_array()) {
+                    for (x, y) in a.iter().zip(b.iter()) {
+                        if x["actions"] != y["actions"] { changed.push(unembed(y["rule_id"].as_str().unwrap_or(""))); }
+                    }
+                }
+                Ok(json!({"r": "ok", "ids": ids(&rs), "changed_actions": changed}))
+            }
+            Err(e) => Ok(json!({"r": "err", "e": format!("{e:?}"), "unchanged": snapshot(&rs) == before_json})),
+        },
+        _ => Err(format!("unknown c13 op {kind_op}")),
+    }
+}
+
+
+fn unembed(id: &str) -> String {
+    if (id.starts_with('!') || id.starts_with('@')) && id.ends_with(":x") { id[1..id.len() - 2].to_owned() } else { id.to_owned() }
+}
+
+
+/// endpoint path selection through Metadata::make_endpoint_url on a history built with VersionHistory::new
+pub fn c16(req: &Value) -> Result<Value, String> {
+    use ruma_common::api::{AuthScheme, MatrixVersion, Metadata, VersionHistory};
+    const ALL: [MatrixVersion; 15] = [
+        MatrixVersion::V1_0, MatrixVersion::V1_1, MatrixVersion::V1_2, MatrixVersion::V1_3, MatrixVersion::V1_4,
+        MatrixVersion::V1_5, MatrixVersion::V1_6, MatrixVersion::V1_7, MatrixVersion::V1_8, MatrixVersion::V1_9,
+        MatrixVersion::V1_10, MatrixVersion::V1_11, MatrixVersion::V1_12, MatrixVersion::V1_13, MatrixVersion::V1_14,
+    ];
+    static UNSTABLE: [&str; 2] = ["/u/a", "/u/b"];
+    static SPATHS: [&str; 3] = ["/s/a", "/s/b", "/s/c"];
+    let ver = |v: &Value| -> Result<MatrixVersion, String> { ALL.get(v.as_u64().ok_or("bad version")? as usize).copied().ok_or_else(|| "unknown version index".to_owned()) };
+    let nu = req["unstable"].as_u64().unwrap_or(0) as usize;
+    let stable: Vec<(MatrixVersion, &'static str)> = req["stable"].as_array().cloned().unwrap_or_default().iter().enumerate()
+        .map(|(i, v)| Ok((ver(v)?, SPATHS[i]))).collect::<Result<_, String>>()?;
+    let stable: &'static [(MatrixVersion, &'static str)] = Box::leak(stable.into_boxed_slice());
+    let dep = if req["deprecated"].is_null() { None } else { Some(ver(&req["deprecated"])?) };
+    let rem = if req["removed"].is_null() { None } else { Some(ver(&req["removed"])?) };
+    let versions: Vec<MatrixVersion> = req["versions"].as_array().cloned().unwrap_or_default().iter().map(|v| ver(v)).collect::<Result<_, _>>()?;
+    let history = VersionHistory::new(&UNSTABLE[..nu], stable, dep, rem);
+    let decision = format!("{:?}", history.versioning_decision_for(&versions));
+    let stable_ep = history.stable_endpoint_for(&versions);
+    let md = Metadata { method: http::Method::GET, rate_limited: false, authentication: AuthScheme::None, history };
+    match md.make_endpoint_url(&versions, "http://h", &[], "") {
+        Ok(url) => Ok(json!({"r": "ok", "path": url.strip_prefix("http://h").unwrap_or(&url), "decision": decision, "stable_endpoint": stable_ep})),
+        Err(e) => {
+            let d = format!("{e:?}");
+            let name = d.split('(').next().unwrap_or("").to_owned();
+            Ok(json!({"r": "err", "e": name, "decision": decision, "stable_endpoint": stable_ep}))
+        }
+    }
+}
